@@ -468,6 +468,31 @@ func genAr1415(c *Ctx) {
 			c.Case(true, fmt.Sprintf("rd %s %d | i+ 0:%d,3600000000000:%d | i+ 0:%d,3600000000000:%d", red, hourNs1415, base+1, base+3, base+2, base+5))
 		}
 	}
+	// integers more than MaxInt64 apart: min / max must compare, not subtract
+	for _, row := range [][]int64{{9223372036854775807, -2}, {-9223372036854775808, 1}, {6000000000000000000, -6000000000000000000},
+		{1, 6000000000000000000, -6000000000000000000, 0}, {-2, 9223372036854775807, -9223372036854775808}} {
+		var vs, fs []string
+		for i, v := range row {
+			vs = append(vs, fmt.Sprintf("%d", v))
+			fs = append(fs, fmt.Sprintf("%di+", i))
+		}
+		for _, red := range []string{"min", "max", "count"} {
+			c.Case(true, fmt.Sprintf("rf %s all | %s | %s", red, strings.Join(fs, ","), strings.Join(vs, ",")))
+			var dss []string
+			for _, v := range row {
+				dss = append(dss, fmt.Sprintf("i+ 0:%d,3600000000000:%d", v, v))
+			}
+			c.Case(true, fmt.Sprintf("rd %s %d | %s", red, hourNs1415, strings.Join(dss, " | ")))
+			if red != "count" {
+				c.Case(true, fmt.Sprintf("mm %s i | %s", red, strings.Join(vs, ",")))
+				var recs []string
+				for i, v := range row {
+					recs = append(recs, fmt.Sprintf("%d:%d", int64(i)*600*1e9, v))
+				}
+				c.Case(true, fmt.Sprintf("ar %s i %d | %s", red, hourNs1415, strings.Join(recs, ",")))
+			}
+		}
+	}
 	// seeded random: longer series, other period lengths, instants before 1970, records carried in other locations
 	durs := []int64{hourNs1415, 60 * 1e9, 900 * 1e9, 86400 * 1e9, 7 * 1e9, 1000000007}
 	n := c.Pick(3000, 200000)
